@@ -78,14 +78,14 @@ Print Assumptions C12_sse_unlocked_event_refuted.
     (a flush per tick until it sees the signal), every use of the response writer taking two steps: *)
 
 (** the response writer is used by one goroutine at a time, and no use of it begins after the handler returned *)
-Theorem C12_multipart_writer_exclusive_nothing_after_return : forall rs tr s,
-  mprun true (mpinit rs) tr = Some s -> both_using s = false /\ m_late s = 0%nat.
+Theorem C12_multipart_writer_exclusive_nothing_after_return : forall rs o tr s,
+  mprun true (mpinit_open rs o) tr = Some s -> both_using s = false /\ m_late s = 0%nat.
 Proof. exact mp_exclusive_lemma. Qed.
 Print Assumptions C12_multipart_writer_exclusive_nothing_after_return.
 
 (** every response is written exactly once and in order; once the handler has returned all of them are on the wire *)
-Theorem C12_multipart_each_response_once_in_order : forall rs tr s,
-  mprun true (mpinit rs) tr = Some s ->
+Theorem C12_multipart_each_response_once_in_order : forall rs o tr s,
+  mprun true (mpinit_open rs o) tr = Some s ->
   written s ++ m_pending s ++ m_todo s = rs /\ (returned s = true -> written s = rs).
 Proof. exact mp_once_in_order_lemma. Qed.
 Print Assumptions C12_multipart_each_response_once_in_order.
